@@ -80,6 +80,12 @@ type violRec struct {
 	Minimised bool     `json:"minimised"`
 	Shrink    string   `json:"shrink,omitempty"`
 	Events    []string `json:"events"`
+	// History: the violation did not reproduce from its own trace in a fresh process: it depends on what
+	// the same worker process executed before it (process-wide state in the library). Replay then
+	// re-executes the worker's earlier runs (shard Shard of Of, same seed and tier) up to this run.
+	History bool `json:"history,omitempty"`
+	Shard   int  `json:"shard,omitempty"`
+	Of      int  `json:"of,omitempty"`
 }
 
 type doneRec struct {
@@ -277,6 +283,22 @@ func worker(args []string) {
 					rec.Minimised = true
 					rec.Shrink = fmt.Sprintf("%d candidates, %d accepted", st.Candidates, st.Accepted)
 				}
+			}
+			rec.Shard, rec.Of = *shard, *of
+			if !(eng.Race && v.Class == "data-race") && v.Class != "harness" {
+				// does the (minimised) trace reproduce on its own in a fresh process?
+				if sig, _, _, _ := subExec(eng, *prop, *tier, rec.Choices); sig != v.Signature {
+					if sig2, used2, ev2, det2 := subExec(eng, *prop, *tier, t.Trace); sig2 == v.Signature {
+						rec.Choices, rec.Events, rec.Detail, rec.Minimised = used2, ev2, det2, false
+						rec.Shrink += " (the minimised trace only fails in the warm worker; the original trace reproduces in a fresh process)"
+					} else {
+						rec.History = true
+						rec.Choices, rec.Events, rec.Detail, rec.Minimised = t.Trace, t.Events, v.Detail, false
+						rec.Shrink += " (does not reproduce from its own trace in a fresh process: depends on the runs this worker executed before it; replay re-executes them)"
+					}
+				}
+			} else if eng.Race && v.Class == "data-race" && !rec.Minimised {
+				rec.History = true
 			}
 			emit(msg{T: "viol", Viol: rec})
 			if len(sigSeen) >= *maxViol {
@@ -727,12 +749,16 @@ type replayFile struct {
 	OrigLen   int            `json:"original_len"`
 	Minimised bool           `json:"minimised"`
 	Shrink    string         `json:"shrink,omitempty"`
+	History   bool           `json:"history,omitempty"`
+	Shard     int            `json:"shard,omitempty"`
+	Of        int            `json:"of,omitempty"`
 	Violation map[string]any `json:"violation"`
 	Events    []string       `json:"events"`
 }
 
 func writeReplay(path, prop, engine, tier string, seed uint64, v *violRec) {
 	rf := replayFile{Property: prop, Engine: engine, Tier: tier, Seed: seed, Run: v.Run, RunSeed: v.RunSeed, Choices: v.Choices, OrigLen: v.OrigLen, Minimised: v.Minimised, Shrink: v.Shrink,
+		History: v.History, Shard: v.Shard, Of: v.Of,
 		Violation: map[string]any{"class": v.Class, "signature": v.Signature, "detail": v.Detail}, Events: v.Events}
 	b, _ := json.MarshalIndent(rf, "", " ")
 	os.WriteFile(path, b, 0o644)
@@ -855,6 +881,29 @@ func replay(args []string) int {
 	saved := os.NewFile(uintptr(dupStdout()), "report")
 	props.Silence()
 	defer props.CleanupScratch()
+	if rf.History && rf.Of > 0 {
+		// re-execute what the worker process had executed before the failing run
+		fmt.Fprintf(os.Stderr, "[verif] replay with process history: runs %d, %d, ... %d of batch seed %d\n", rf.Shard, rf.Shard+rf.Of, rf.Run, rf.Seed)
+		var v *sim.Violation
+		var last *sim.T
+		for i := rf.Shard; i <= rf.Run; i += rf.Of {
+			last = sim.NewT(sim.RunSeed(rf.Seed, eng.Name, i))
+			v = runGuarded(eng, last, rf.Tier)
+			if v != nil && v.Signature == want {
+				break // an earlier run of the shard may already show it (the worker reports a signature once)
+			}
+		}
+		for _, e := range last.Events {
+			fmt.Fprintln(os.Stderr, "  ", e)
+		}
+		if v == nil || v.Signature != want {
+			fmt.Fprintf(os.Stderr, "[verif] replay with history did not reproduce %s\n", want)
+			return 3
+		}
+		fmt.Fprintf(os.Stderr, "[verif] replay: %s: %s\n", v.Signature, v.Detail)
+		fmt.Fprintf(saved, "VIOLATION property=%s replay=%s\n", rf.Property, args[0])
+		return 1
+	}
 	var t *sim.T
 	if rf.Choices != nil {
 		t = sim.NewReplayT(rf.Choices)
